@@ -62,6 +62,17 @@ StagesOf(name) ==
             {SubSeq(<<72, 84, 84, 80, 47, 49, 46, 49>>, 1, k) : k \in 0..8} \cup {<<72, 84, 84, 80, 47, 49, 46, 48>>},
             {<<>>} \cup {<<b>> : b \in {0, 10, 13, 32, 46, 47, 48, 49, 50, 72, 80, 84, 104, 255}},
             {<<>>, <<13, 10, 13, 10>>, <<32, 50, 48, 48, 32, 79, 75, 13, 10, 13, 10>>, <<49, 46, 49, 10, 10>>} >>
+    [] name = "REASONS" ->
+         \* status lines with every shape of delimiter and reason: empty, leading / trailing /
+         \* interior SP and HTAB, obs-text, then both line ends and a header or the end
+         << {<<72, 84, 84, 80, 47, 49, 46, 49>>},
+            {<<SP>>, <<SP, SP>>},
+            {<<50, 48, 48>>, <<52, 48, 52>>},
+            {<<>>, <<SP>>, <<SP, SP>>, <<SP, HT>>},
+            {<<>>, <<79, 75>>, <<78, 111, 116, SP, 70, 111, 117, 110, 100>>, <<99, 97, 102, 233>>, <<HT>>, <<DEL>>},
+            {<<>>, <<SP>>, <<SP, SP>>, <<HT>>},
+            {<<CR, LF>>, <<LF>>, <<CR>>},
+            {<<LF>>, <<CR, LF>>, <<97, COLON, SP, 98, SP, CR, LF, CR, LF>>} >>
     [] OTHER -> << >>
 Stages == StagesOf(L)
 
